@@ -300,7 +300,7 @@ def audit(prop, model: Model, ctx):
         "applicable": total, "evaluated": len(results), "killed": tally.get("killed", 0), "analysis_error": tally.get("analysis-error", 0),
         "survived": tally.get("survived", 0), "invalid": tally.get("invalid", 0), "crash": tally.get("crash", 0),
         "kill_ratio": round((tally.get("killed", 0) + tally.get("analysis-error", 0)) / max(1, len(results) - tally.get("invalid", 0)), 3),
-        "survivor_samples": survivors[:40],
+        "survivor_samples": survivors[:200],
         "functions": sorted(ctx.functions),
     }
     return res
